@@ -505,12 +505,13 @@ class RuntimeV1_0(Runtime):
             parsed_data = parse_colang_file("dynamic.co", content=text)
             assert len(parsed_data["flows"]) == 1
             flow = parsed_data["flows"][0]
+            flow_config = self._create_flow_config(flow_id, flow)
             # To make sure that the flow will start now, we add a start_flow element at
-            # the beginning as well.
-            flow["elements"].insert(0, {"_type": "start_flow", "flow_id": flow_id})
+            # the beginning as well (after a leading meta element has been taken off).
+            flow_config.elements.insert(0, {"_type": "start_flow", "flow_id": flow_id})
             if len(parsed) >= 1000:
                 parsed.clear()
-            parsed[(flow_id, body)] = self._create_flow_config(flow_id, flow)
+            parsed[(flow_id, body)] = flow_config
         return parsed[(flow_id, body)]
 
     async def _process_start_flow(
